@@ -46,7 +46,7 @@ func (b *RetriableBatcher) Out(data *WorkerData, batch *Batch) {
 		Multiplier:          b.backoffOpts.Multiplier,
 		RandomizationFactor: 0.5,
 		MaxInterval:         backoff.DefaultMaxInterval,
-		MaxElapsedTime:      backoff.DefaultMaxElapsedTime,
+		MaxElapsedTime:      0, // no time limit: the loop below is bounded by AttemptNum
 		Stop:                backoff.Stop,
 		Clock:               backoff.SystemClock,
 	}
